@@ -74,6 +74,11 @@ func (e *Engine) runPath(st *State) {
 				if len(st.frames) > 0 {
 					where = e.siteIn(st)
 				}
+				if os.Getenv("GOSMT_DEBUG_PANIC") != "" {
+					for i := len(st.frames) - 1; i >= 0 && i >= len(st.frames)-12; i-- {
+						where += "\n   frame " + st.frames[i].fn.String()
+					}
+				}
 				e.rep.Unsupported = appendUniq(e.rep.Unsupported, x.msg+" @ "+where)
 			default:
 				where := "?"
